@@ -22,26 +22,31 @@ func SuiteMatchesFilters(suite *Suite) SuiteMatch {
 		return SUITE_MATCH_FULL
 	}
 
-	var result SuiteMatch
-
-	for _, filter := range Filters {
-		suiteMatch := filter.SuiteMatches(suite)
-		switch suiteMatch {
+	// A filter that fully matches a suite (a path filter naming its first line)
+	// is satisfied by everything inside the suite; the other filters still apply.
+	full := 0
+	for i, filter := range Filters {
+		if suite.fullFilters[i] {
+			// already fully matched by an enclosing suite
+			full++
+			continue
+		}
+		switch filter.SuiteMatches(suite) {
 		case SUITE_MATCH_FALSE:
-			return suiteMatch
+			return SUITE_MATCH_FALSE
 		case SUITE_MATCH_FULL:
-			if result == SUITE_MATCH_FALSE {
-				result = SUITE_MATCH_FULL
+			if suite.fullFilters == nil {
+				suite.fullFilters = make(map[int]bool)
 			}
-		case SUITE_MATCH_TRUE:
-			result = SUITE_MATCH_TRUE
+			suite.fullFilters[i] = true
+			full++
 		}
 	}
 
-	if result == SUITE_MATCH_FALSE {
-		return SUITE_MATCH_TRUE
+	if len(Filters) > 0 && full == len(Filters) {
+		return SUITE_MATCH_FULL
 	}
-	return result
+	return SUITE_MATCH_TRUE
 }
 
 func CaseMatchesFilters(testCase *Case) bool {
@@ -49,7 +54,10 @@ func CaseMatchesFilters(testCase *Case) bool {
 		return true
 	}
 
-	for _, filter := range Filters {
+	for i, filter := range Filters {
+		if testCase.Parent.fullFilters[i] {
+			continue
+		}
 		if !filter.CaseMatches(testCase) {
 			return false
 		}
